@@ -209,6 +209,11 @@ func (r *Run) user(a Action) {
 			r.skipped = true
 			return
 		}
+		if r.returnAfterResetDeletedBatchRelease(o, ver) {
+			r.W.Excluded[FindingReturnAfterReset]++
+			r.skipped = true
+			return
+		}
 		if r.blueGreenSupersession(o, ver) {
 			r.W.Excluded[FindingBlueGreenSupersession]++
 			r.skipped = true
@@ -492,7 +497,7 @@ const FindingRollbackBeforeFirstPod = "c10-cloneset-rollback-not-recognised-when
 // rollbackBeforeFirstPod: CloneSet, release in progress, and the pods will not stay on mixed
 // revisions after the revert.
 func (r *Run) rollbackBeforeFirstPod() bool {
-	if !KnownOpen[FindingRollbackBeforeFirstPod] || os.Getenv("VERIF_REPLAY_STRICT") != "" || !(propActive("C10") || propActive("C04")) || r.S.Workload != "cloneset" {
+	if !KnownOpen[FindingRollbackBeforeFirstPod] || os.Getenv("VERIF_REPLAY_STRICT") != "" || r.S.Workload != "cloneset" {
 		return false
 	}
 	ro := r.W.Rollout(r.S.Namespace, r.S.Name)
@@ -506,6 +511,39 @@ func (r *Run) rollbackBeforeFirstPod() bool {
 		return scaledRoundUp(cs.Spec.UpdateStrategy.Partition, int(pointer.Int32Deref(cs.Spec.Replicas, 0)), 0) == 0
 	}
 	return false
+}
+
+// FindingReturnAfterReset: a rollback or supersession made the Rollout start its continuous-release
+// reset and delete the BatchRelease while the current step was already past its upgrade; the user
+// then goes back to the revision being released. The Rollout resumes normal rolling from that
+// sub-state, never recreates the BatchRelease (only StepUpgrade does), completes "successfully",
+// and nothing clears the partition=100% the webhook set on the last template change.
+const FindingReturnAfterReset = "c05-return-to-released-revision-after-reset-deleted-the-batchrelease"
+
+// returnAfterResetDeletedBatchRelease: the target template is the revision being released, the
+// BatchRelease is gone (or going) and the current step is past StepUpgrade.
+func (r *Run) returnAfterResetDeletedBatchRelease(target client.Object, ver string) bool {
+	if !KnownOpen[FindingReturnAfterReset] || os.Getenv("VERIF_REPLAY_STRICT") != "" {
+		return false
+	}
+	ro := r.W.Rollout(r.S.Namespace, r.S.Name)
+	if ro == nil || ro.Status.Phase != v1beta1.RolloutPhaseProgressing || ro.Status.GetSubStatus() == nil {
+		return false
+	}
+	if br := r.W.BatchRelease(r.S.Namespace, r.S.Name); br != nil && br.DeletionTimestamp == nil {
+		return false
+	}
+	switch ro.Status.GetSubStatus().CurrentStepState {
+	case v1beta1.CanaryStepStateInit, v1beta1.CanaryStepStateUpgrade:
+		return false
+	}
+	tpl := templateOf(target).DeepCopy()
+	tpl.Spec.Containers[0].Image = "app:" + ver
+	h := k8sTemplateHash(templateWithoutHash(tpl))
+	if r.S.Workload == "cloneset" {
+		h = revisionHash(tpl)
+	}
+	return h == canaryRevOf(ro)
 }
 
 // FindingBlueGreenSupersession: a third template is published during a blue-green release. The
@@ -570,7 +608,7 @@ func (w *World) supersededBatchReleaseWouldResume(it QItem) bool {
 	return short != canaryRevOf(ro) && short != ro.Status.GetSubStatus().StableRevision && br.Status.UpdateRevision == upd
 }
 
-var KnownOpen = map[string]bool{FindingRollbackWhilePreparing: true, FindingRaiseUpgradedStep: true, FindingBlueGreenSupersession: true, FindingSupersededResumed: true, FindingRollbackBeforeFirstPod: true, FindingRevertBeforeObserved: true, FindingExitBeforeBatchRelease: true, FindingGatewayDisableCanarySvc: true, FindingPlanEditJumpToSelf: true, FindingReleaseDuringCancel: true, FindingScaleBelowTrafficStep: true}
+var KnownOpen = map[string]bool{FindingReturnAfterReset: true, FindingRollbackWhilePreparing: true, FindingRaiseUpgradedStep: true, FindingBlueGreenSupersession: true, FindingSupersededResumed: true, FindingRollbackBeforeFirstPod: true, FindingRevertBeforeObserved: true, FindingExitBeforeBatchRelease: true, FindingGatewayDisableCanarySvc: true, FindingPlanEditJumpToSelf: true, FindingReleaseDuringCancel: true, FindingScaleBelowTrafficStep: true}
 
 // scaleBelowTrafficStep: partition style + provider + an integer step with traffic >= n.
 func (r *Run) scaleBelowTrafficStep(n int) bool {
